@@ -275,6 +275,19 @@ def check(ctx):
                 ctx.unknown("R01.2", inst, str(e))
                 continue
             _verdict(ctx, disp, inst, pr)
+    # each axis has its own table of default shifts
+    for order in (("AX", "AY"), ("AY", "AX")):
+        in_dims = [dimsym("AX", "center"), Sym("t"), dimsym("AY", "center")]
+        inst = f"dispatch to=None over axes {list(order)} whose default shifts differ"
+        dfl = {"AX": "left", "AY": "right"}
+        try:
+            outs = run_dispatch(P, "interp", {"AX": "center", "AY": "center"}, None, axnames=("AX", "AY"), axis_arg=[Sym(a) for a in order], dims=in_dims,
+                                per_axis_shifts={a: {"center": d} for a, d in dfl.items()})
+            pr = expect_run(inst, outs, [(a, "center", dfl[a]) for a in order], in_dims, funcname="interp")
+        except Unmodelled as e:
+            ctx.unknown("R01.2", inst, str(e))
+            continue
+        _verdict(ctx, disp, inst, pr)
     # per-axis mapping for `to`, two axes in both orders, dims in both orders
     for order in (("AX", "AY"), ("AY", "AX")):
         for dimorder in (0, 1):
